@@ -246,8 +246,10 @@ pub const CFG: GenCfg = GenCfg {
     faults: FaultProfile::FinitePrefix,
     small_windows_pct: 10,
     aborts: false,
-    idle_ms: (4_000, 10_000),
-    cap_ms: 60_000,
+    // (generous: a handshake whose first flight was lost leaves a probe timeout of 3-4 s, and the completion rule below
+    // must not mistake a legitimate idle timeout for a desynchronised key phase)
+    idle_ms: (15_000, 30_000),
+    cap_ms: 120_000,
     server_initiated: true,
 };
 
